@@ -20,7 +20,13 @@ import (
 	"verifharness/internal/rng"
 )
 
-const Root = "/verif"
+// Root is the framework directory (VERIF_ROOT overrides it for scratch copies).
+var Root = func() string {
+	if r := os.Getenv("VERIF_ROOT"); r != "" {
+		return r
+	}
+	return "/verif"
+}()
 
 type Violation struct {
 	Kind   string // spec | correspondence | theorem | runtime
